@@ -17,13 +17,15 @@ Deps ==
   /\ LET cs == Pairs(scn.calls)
          ls == SetOf(scn.listed)
          ex == SetOf(scn.excl) \cup {"Proj"}
+         hm == SetOf(scn.human)
+         hd == SetOf(scn.hid)
          ar == {<<Ev.edges[i][1], Ev.edges[i][3]>> : i \in DOMAIN Ev.edges}
          drawn == Pairs(Ev.arrows)
          textual == scn.view \in {"plain", "clustered"}
-         bad == (IF SoundA(ar, cs, ex) THEN {} ELSE {"ArrowWithoutCallOrExcluded"})
-                \cup (IF CompleteA(ar, cs, ls, ex) THEN {} ELSE {"CallNotDrawn"})
-                \cup (IF textual /\ ~SoundA(drawn, cs, ex) THEN {"DrawnArrowWithoutCallOrExcluded"} ELSE {})
-                \cup (IF textual /\ ~CompleteA(drawn, cs, ls, ex) THEN {"CallNotDrawnInDiagram"} ELSE {})
+         bad == (IF SoundA(ar, cs, ex, hm, hd) THEN {} ELSE {"ArrowWithoutCallOrExcluded"})
+                \cup (IF CompleteA(ar, cs, ls, ex, hm, hd) THEN {} ELSE {"CallNotDrawn"})
+                \cup (IF textual /\ ~SoundA(drawn, cs, ex, hm, hd) THEN {"DrawnArrowWithoutCallOrExcluded"} ELSE {})
+                \cup (IF textual /\ ~CompleteA(drawn, cs, ls, ex, hm, hd) THEN {"CallNotDrawnInDiagram"} ELSE {})
                 \cup (IF Ev.unknown # <<>> THEN {"UndeclaredAlias"} ELSE {})
                 \cup (IF ~Ev.hastext THEN {"NoDiagramForView"} ELSE {})
      IN bad # {} => Say("VERDICT", Ev.t, bad)
@@ -45,7 +47,7 @@ Mermaid ==
 Normal == Begin \/ Deps \/ Mermaid
 \* panic, fatal (stack exhaustion on a pass-through cycle), timeout: no action
 Skip == /\ l <= Len(Trace) /\ ~ENABLED Normal /\ Say("REJECT", Ev.t, Ev.e) /\ l' = l + 1 /\ UNCHANGED <<vars, scn>>
-TraceInit == /\ l = 1 /\ scn = <<>> /\ calls = {} /\ listed = {} /\ excl = {} /\ pass = {} /\ final = {}
+TraceInit == /\ l = 1 /\ scn = <<>> /\ calls = {} /\ listed = {} /\ excl = {} /\ pass = {} /\ human = {} /\ hid = {} /\ final = {}
              /\ arrows = {} /\ todo = {} /\ walked = {} /\ phase = "trace"
 TraceSpec == TraceInit /\ [][Normal \/ Skip]_<<vars, l, scn>>
 Consumed == TLCSet(1, l)
